@@ -1,0 +1,158 @@
+//go:build verif
+
+package kafkaconsumer
+
+// Verification hooks (build tag "verif" only; add-only).  They construct the consumers over
+// caller-supplied clients WITHOUT starting background goroutines and export thin wrappers
+// around unexported methods, so that an external harness can drive the real logic with
+// scripted brokers.  Nothing here changes behaviour of existing code.
+
+import (
+	"context"
+	"sync"
+
+	"github.com/confluentinc/confluent-kafka-go/kafka"
+	"golang.org/x/time/rate"
+
+	"github.com/digitalocean/firebolt"
+	"github.com/digitalocean/firebolt/fbcontext"
+	kafkainterface "github.com/digitalocean/firebolt/kafka"
+)
+
+// NewRecoveryConsumerV builds a RecoveryConsumer like NewRecoveryConsumer does, over the passed client, without
+// the event-handling and refresh goroutines.
+func NewRecoveryConsumerV(consumer kafkainterface.MessageConsumer, topic string, sendCh chan firebolt.Event,
+	maxRecords int, maxRate int, ctx fbcontext.FBContext) *RecoveryConsumer {
+	m := &Metrics{}
+	m.RegisterConsumerMetrics()
+	r := &RecoveryConsumer{
+		consumer:            consumer,
+		topic:               topic,
+		sendCh:              sendCh,
+		doneCh:              make(chan struct{}),
+		assignedPartitions:  []kafka.TopicPartition{},
+		maxRecordsToRecover: maxRecords,
+		maxRecordsPerSec:    maxRate,
+		updateRequestEvery:  int64(updateRecoveryRequestSeconds * maxRate),
+		rateLimiter:         rate.NewLimiter(rate.Limit(maxRate), 100),
+		ctx:                 context.Background(),
+		metrics:             m,
+	}
+	rt, _ := NewRecoveryTracker(m, ctx)
+	r.tracker = rt
+	return r
+}
+
+// NewRecoveryConsumerRealV runs the real constructor (which creates a librdkafka client and starts the background
+// goroutines), then stops those goroutines' inputs and substitutes the passed client.
+func NewRecoveryConsumerRealV(consumer kafkainterface.MessageConsumer, topic string, sendCh chan firebolt.Event,
+	config map[string]string, ctx fbcontext.FBContext) (*RecoveryConsumer, error) {
+	m := &Metrics{}
+	m.RegisterConsumerMetrics()
+	r, err := NewRecoveryConsumer(topic, sendCh, config, m, ctx)
+	if err != nil {
+		return nil, err
+	}
+	r.refreshTicker.Stop()
+	r.doneCh <- struct{}{} // stops handleEvents
+	_ = r.consumer.Close()
+	r.consumer = consumer
+	return r, nil
+}
+
+// NewKafkaConsumerV builds a KafkaConsumer over the passed client; rc may be nil (parallel recovery disabled).
+func NewKafkaConsumerV(consumer kafkainterface.MessageConsumer, topic string, sendCh chan firebolt.Event,
+	maxLag int, rc *RecoveryConsumer, ctx fbcontext.FBContext) *KafkaConsumer {
+	k := &KafkaConsumer{}
+	k.Init("verif-kafkaconsumer", ctx)
+	k.consumer = consumer
+	k.topic = topic
+	k.sendCh = sendCh
+	k.doneCh = make(chan struct{}, 1)
+	k.assignPartitionsMutex = sync.Mutex{}
+	k.assignPartitionsCtx, k.assignPartitionsCancel = context.WithCancel(context.Background())
+	k.maxInitialPartitionLag = maxLag
+	k.metrics = &Metrics{}
+	k.metrics.RegisterConsumerMetrics()
+	k.recoveryConsumerEnabled = rc != nil
+	k.recoveryConsumer = rc
+	return k
+}
+
+// AssignPartitionsV calls assignPartitions.
+func (k *KafkaConsumer) AssignPartitionsV(partitions []kafka.TopicPartition) error {
+	return k.assignPartitions(partitions)
+}
+
+// RevokeV calls revokePartitionAssignments.
+func (k *KafkaConsumer) RevokeV() { k.revokePartitionAssignments() }
+
+// ProcessEventV calls processEvent.
+func (k *KafkaConsumer) ProcessEventV(ev kafka.Event) { k.processEvent(ev) }
+
+// BuildConfigMapV calls buildConfigMap.
+func (k *KafkaConsumer) BuildConfigMapV(config map[string]string) (*kafka.ConfigMap, error) {
+	return k.buildConfigMap(config)
+}
+
+// CheckConfigV calls checkConfig.
+func (k *KafkaConsumer) CheckConfigV(config map[string]string) error { return k.checkConfig(config) }
+
+// ProcessEventV calls processEvent.
+func (rc *RecoveryConsumer) ProcessEventV(ev kafka.Event) { rc.processEvent(ev) }
+
+// BuildConfigMapV calls buildConfigMap.
+func (rc *RecoveryConsumer) BuildConfigMapV(config map[string]string) (*kafka.ConfigMap, error) {
+	return rc.buildConfigMap(config)
+}
+
+// AssignedPartitionsV returns the partitions last passed to SetAssignedPartitions.
+func (rc *RecoveryConsumer) AssignedPartitionsV() []kafka.TopicPartition { return rc.assignedPartitions }
+
+// ActiveV returns partition -> (fromOffset, toOffset) of the partitions under active recovery.
+func (rc *RecoveryConsumer) ActiveV() map[int32][2]int64 {
+	rc.partitionAssignmentLock.RLock()
+	defer rc.partitionAssignmentLock.RUnlock()
+	res := make(map[int32][2]int64)
+	for p, st := range rc.activePartitionMap {
+		res[p] = [2]int64{st.fromOffset, st.toOffset}
+	}
+	return res
+}
+
+// TrackerV returns the consumer's RecoveryTracker.
+func (rc *RecoveryConsumer) TrackerV() *RecoveryTracker { return rc.tracker }
+
+// LimiterParamsV returns the configured limit (events per second) and burst of the rate limiter.
+func (rc *RecoveryConsumer) LimiterParamsV() (float64, int) {
+	return float64(rc.rateLimiter.Limit()), rc.rateLimiter.Burst()
+}
+
+// SetUpdateEveryV overrides the progress-broadcast period (in records).
+func (rc *RecoveryConsumer) SetUpdateEveryV(n int64) { rc.updateRequestEvery = n }
+
+// UpdateEveryV returns the progress-broadcast period (in records).
+func (rc *RecoveryConsumer) UpdateEveryV() int64 { return rc.updateRequestEvery }
+
+// ReceiveRequestV calls receiveRequest.
+func (rt *RecoveryTracker) ReceiveRequestV(key string, payload []byte) { rt.receiveRequest(key, payload) }
+
+// CancelAllV calls cancelAll.
+func (rt *RecoveryTracker) CancelAllV() error { return rt.cancelAll() }
+
+// SnapshotV returns partition -> ordered (from,to) list for every tracked partition entry.
+func (rt *RecoveryTracker) SnapshotV() map[int32][][2]int64 {
+	rt.requestLock.RLock()
+	defer rt.requestLock.RUnlock()
+	res := make(map[int32][][2]int64)
+	for p, reqs := range rt.recoveryRequests {
+		l := [][2]int64{}
+		if reqs != nil {
+			for _, r := range reqs.Requests {
+				l = append(l, [2]int64{r.FromOffset, r.ToOffset})
+			}
+		}
+		res[p] = l
+	}
+	return res
+}
